@@ -9,6 +9,7 @@
 //!   A kind text lead trail nl nt  terminal built by add_trivia_to_terminal (hex texts)
 //!   X tag start end             diagnostic emitted by consume_pending_skipped_diagnostics
 //!   Z|snap                      final state
+//!   Li / Lr / L-                loop events (second half of this file)
 use crate::coqfmt::{coq_str, tkind};
 
 pub fn start(want: bool) {
@@ -18,7 +19,135 @@ pub fn start(want: bool) {
 }
 
 pub fn finish() -> Option<String> {
-    cairo_lang_parser::verif_hook::finish().map(|lines| to_coq(&lines))
+    finish_raw().map(|lines| to_coq(&lines))
+}
+
+/// The raw log (None when logging was off).
+pub fn finish_raw() -> Option<Vec<String>> {
+    cairo_lang_parser::verif_hook::finish()
+}
+
+// ---------------------------------------------------------------------------------------------
+// Loop events: `Li <id> <loop>|snap` at the head of every iteration of an instrumented parser loop
+// (`id` = one run of the loop), `Lr <id> <Ok|Skip|Do|Err> <peek kind>|snap` right after the element
+// parser of parse_list / parse_separated_list_inner returned, `L- <id>|snap` after the loop.
+// consumed(snap) = offset + current_width = bytes of source consumed so far.
+
+pub struct Iter {
+    pub c0: u64,
+    pub res: &'static str, // LOk LSkip LDo LErr LNone
+    pub eof: bool,
+    pub c1: u64,
+}
+pub struct LoopRun {
+    pub name: String,
+    pub iters: Vec<Iter>,
+    pub end: Option<u64>,
+}
+
+fn consumed(snap: &str) -> Option<u64> {
+    let mut it = snap.split_whitespace();
+    let a: u64 = it.next()?.parse().ok()?;
+    let b: u64 = it.next()?.parse().ok()?;
+    Some(a + b)
+}
+
+pub fn is_loop_line(l: &str) -> bool {
+    l.starts_with("Li ") || l.starts_with("Lr ") || l.starts_with("L- ")
+}
+
+/// The runs of the instrumented loops, in order of their first iteration.
+pub fn loop_runs(lines: &[String]) -> Vec<LoopRun> {
+    let mut runs: Vec<LoopRun> = vec![];
+    let mut index: std::collections::HashMap<u64, usize> = std::collections::HashMap::new();
+    for line in lines.iter().filter(|l| is_loop_line(l)) {
+        let Some((head, sn)) = line.split_once('|') else { continue };
+        let Some(c) = consumed(sn) else { continue };
+        let f: Vec<&str> = head.split_whitespace().collect();
+        let Some(id) = f.get(1).and_then(|x| x.parse::<u64>().ok()) else { continue };
+        match f[0] {
+            "Li" => {
+                let k = *index.entry(id).or_insert_with(|| {
+                    runs.push(LoopRun { name: f.get(2).unwrap_or(&"?").to_string(), iters: vec![], end: None });
+                    runs.len() - 1
+                });
+                runs[k].iters.push(Iter { c0: c, res: "LNone", eof: false, c1: c });
+            }
+            "Lr" => {
+                if let Some(it) = index.get(&id).and_then(|k| runs[*k].iters.last_mut()) {
+                    it.res = match f.get(2).copied() {
+                        Some("Ok") => "LOk",
+                        Some("Skip") => "LSkip",
+                        Some("Do") => "LDo",
+                        _ => "LErr",
+                    };
+                    it.eof = f.get(3).copied() == Some("TerminalEndOfFile");
+                    it.c1 = c;
+                }
+            }
+            _ => {
+                if let Some(k) = index.get(&id) {
+                    runs[*k].end = Some(c);
+                }
+            }
+        }
+    }
+    runs
+}
+
+/// Impl-level oracle of C09 on the loops: between two consecutive iterations of the same run of a
+/// loop the parser must have consumed at least one byte (a deterministic loop that did not move
+/// would spin forever; the watchdog would see it as a hang, this names the loop and the offset).
+pub fn loop_no_progress(runs: &[LoopRun]) -> Option<String> {
+    for r in runs {
+        for w in r.iters.windows(2) {
+            if w[1].c0 <= w[0].c0 {
+                return Some(format!(
+                    "loop {}: two consecutive iterations start with {} and {} bytes consumed (no progress)",
+                    r.name, w[0].c0, w[1].c0
+                ));
+            }
+        }
+    }
+    None
+}
+
+/// Coq term (list (lkind * list liter)) for Syntax/Corr.v `check_loops`.
+pub fn loops_to_coq(runs: &[LoopRun]) -> String {
+    let v: Vec<String> = runs
+        .iter()
+        .map(|r| {
+            let kind = match r.name.as_str() {
+                "parse_list" => "LParseList".to_string(),
+                "parse_separated_list" => "LSepList".to_string(),
+                "skip_until" => "LSkipUntil".to_string(),
+                n => format!("(LWatched \"{n}\")"),
+            };
+            let n = r.iters.len();
+            let its: Vec<String> = r
+                .iters
+                .iter()
+                .enumerate()
+                .map(|(i, it)| {
+                    let next = if i + 1 < n { Some(r.iters[i + 1].c0) } else { r.end };
+                    format!(
+                        "mkIt {} {} {} {} {} {}",
+                        it.c0,
+                        it.res,
+                        it.eof,
+                        it.c1,
+                        match next {
+                            Some(x) => format!("(Some {x})"),
+                            None => "None".into(),
+                        },
+                        i + 1 == n
+                    )
+                })
+                .collect();
+            format!("({kind}, [{}])", its.join("; "))
+        })
+        .collect();
+    format!("[{}]", v.join(";\n   "))
 }
 
 fn unhex(h: &str) -> String {
@@ -61,7 +190,7 @@ pub fn to_coq(lines: &[String]) -> String {
             nodes.clear();
         }
     };
-    for line in lines {
+    for line in lines.iter().filter(|l| !is_loop_line(l)) {
         let (head, sn) = match line.split_once('|') {
             Some((h, s)) => (h.trim(), Some(snap(s))),
             None => (line.trim(), None),
